@@ -581,6 +581,14 @@ def stage_closest(ctx: Ctx, cs: Cases):
                 else:
                     t.append(Fraction(ctx.rng.randint(-7, 16 * shape[a] - 9), 16))
             p = [float(Fraction(o[a]) + t[a] * Fraction(diag[a])) for a in range(d)]
+            if full and q % 6 == 5:
+                # "any query point" includes points astronomically far from the box: a fractional coordinate beyond the int32 / exactly
+                # representable / int64 ranges, up to the largest doubles (the nearest node is then the end of that axis; judged exactly)
+                far_axes = ctx.rng.sample(range(d), ctx.rng.randint(1, d))
+                for a in far_axes:
+                    steps = ctx.rng.choice([2.0**31 + 0.5, 2.0**32, 2.0**53, 2.0**62, 2.0**63, 2.0**64, 1e19, 1e30, 1e100, 1e300])
+                    v = ctx.rng.choice([-1, 1]) * steps * abs(diag[a])
+                    p[a] = float(v) if abs(v) < 1e308 else ctx.rng.choice([-1, 1]) * 1.7e308
             key = f"closest:{o}:{diag}:{shape}:{p}"
             ctx.case(key)
             ctx.count(f"closest_point_{d}d")
@@ -591,6 +599,15 @@ def stage_closest(ctx: Ctx, cs: Cases):
                 ctx.fail(f"closest_is_nearest{d}_partial", key, type(e).__name__, f"{rep} raises {type(e).__name__}: {e}", {"reproduce": rep})
                 continue
             types_seen.add(type(r).__name__)
+            if all(float(x).is_integer() and abs(x) < 2**53 for x in p):  # the same point as an integer array
+                try:
+                    r_int = g.closest_point(np.array(p, dtype=np.int64), "closest")
+                except Exception as e:
+                    r_int = type(e).__name__
+                if r_int != r:
+                    ctx.fail("closest_is_nearest" if full else f"closest_is_nearest{d}_partial", key + ":int64-array", str(r_int),
+                             f"{rep}: the same query point given as an int64 array gives {r_int!r} instead of {r!r}", {"reproduce": rep.replace("np.array(", "np.array(", 1)})
+                    continue
             arg, _ = true_nearest(o, diag, shape, p)
             if float(r) != int(r) or int(r) not in arg:
                 ctx.fail("closest_is_nearest" if full else f"closest_is_nearest{d}_partial", key, float(r), f"{rep} = {r!r}; the nearest node(s) have flat index {arg}", {"reproduce": rep})
@@ -985,6 +1002,20 @@ def run(ctx: Ctx):
         if not status.get("C13_gen.v") or not status.get("C13_model.v"):
             tie_err = RuntimeError("C13_gen.v / C13_model.v do not compile: " + (ctx.logs.get("C13_gen.v", "") + ctx.logs.get("C13_model.v", ""))[-600:])
             tie_what = "generated model (C13_gen.v, C13_model.v)"
+    if tie_err is not None:
+        # no theorem says which clauses hold at full strength: ask the implementation on the canonical witnesses of the three
+        # repairable defects; where it answers correctly the full-strength oracle is applied to the whole input class
+        try:
+            gw = UniformGrid.from_molecule(np.array([1, 80]), np.array([[0.0, 0, 0], [10, 0, 0]]), rotate=False)
+            VARIANT["box_full"] = min(min(lo, hi) for lo, hi, _ in box_margins(gw, [[0.0, 0, 0], [10.0, 0, 0]])) >= Fraction(48, 10) - TOL * 100
+        except Exception:
+            pass
+        try:
+            w1 = UniformGrid(np.zeros(3), np.diag([-1.0, 1.0, 1.0]), np.array([3, 3, 3])).closest_point(np.array([-1.0, 0.0, 0.0]))
+            w2 = UniformGrid(np.zeros(3), np.eye(3), np.array([3, 4, 5])).closest_point(np.array([0.0, 0.0, 7.0]))
+            VARIANT["closest_full"] = (w1 == 9 and w2 == 4)
+        except Exception:
+            pass
     if tie_err is None:
         # full-strength clauses: proved of the generated code, or refuted (the *_refuted file explains the failure, the stages
         # below re-derive the concrete failing input on the implementation)
